@@ -26,8 +26,33 @@ impl Dependencies for Block {
         block_dependencies
     }
 
+    /// A statement can only be supplied by the statements that stand BEFORE it in the block:
+    /// in `x = apply(fn() -> int { return x + 1 })` the closure reads a captured `x`, not the
+    /// local this very statement is about to declare (and a later `x = ..` supplies nothing
+    /// to a closure created above it).
     fn net_dependencies(&self) -> Vec<Dependency> {
-        get_net_dependencies(self, true)
+        let mut supplied: Vec<Dependency> = vec![];
+        let mut result: Vec<Dependency> = vec![];
+
+        for statement in &self.0 {
+            'dependency_loop: for mut dependency in statement.net_dependencies() {
+                for supply in &supplied {
+                    if supply
+                        .eq_allow_callbacks(&dependency)
+                        .expect("idents do not have types")
+                    {
+                        continue 'dependency_loop;
+                    }
+                }
+
+                dependency.increment_cycle();
+                result.push(dependency);
+            }
+
+            supplied.append(&mut statement.supplies());
+        }
+
+        result
     }
 }
 
